@@ -43,6 +43,7 @@ CONSTANTS
   \* weaker locking would admit -- replayed on the real code they are either refused by its locks or followed)
   SaveUnderLock,    \* TRUE: the store write of a publication happens inside the entry's critical section
   PurgeHoldsShard,  \* TRUE: a purge keeps the shard locked until the persisted copy is deleted
+  LoadUnderLock,    \* TRUE: the first-use read of the store happens inside the entry's critical section
   AbsentPurge,      \* BOOLEAN: purges naming a cache that does not exist are explored too
   Reapplies,        \* BOOLEAN: the unchanged cache configuration is applied again (ResetDispatchers) at arbitrary moments
   Ghost           \* TRUE: maintain the observation state (FALSE: design invariants and liveness only, far fewer states)
@@ -222,12 +223,20 @@ Loaded(E, rec, res) ==
   ELSE (* badstatus: a complete record whose status field reads `fetching` *)
        [E EXCEPT !.status = "fetching", !.resp = rec.resp, !.createdAt = rec.createdAt, !.expiredAt = rec.expiredAt]
 
+(* relaxed locking only: the request goes to the store for a brand-new entry before taking the entry's lock *)
+GetBegin(r) ==
+  /\ ~LoadUnderLock
+  /\ pc[r] = "get.lock" /\ est[rent[r]].status = "unknown" /\ HasStore[rdisp[r]]
+  /\ pc' = [pc EXCEPT ![r] = "store.get"]
+  /\ UNCHANGED <<now, ticks, lru, ent, est, nextEnt, elock, slock, store, rkey, rdisp, rmeth, rent, rst, rresp, rout, rttl, rsend, rver,
+                 ppc, pkey, ptodo, pcur, pall, starts, nver, purges, kills, drops, obs>>
+
 (* http_cache.go Get: Lock; get(); Unlock  -- one critical section *)
 GetStep(r, res) ==
   LET e == rent[r]
       E0 == est[e]
       d == rdisp[r]
-      loads == E0.status = "unknown" /\ HasStore[d]
+      loads == (E0.status = "unknown" /\ HasStore[d]) \/ pc[r] = "store.get"
       rec == store[d][E0.key]
       E == IF loads THEN Loaded(E0, rec, res) ELSE E0
       expd == E.expiredAt # 0 /\ E.expiredAt < now
@@ -240,7 +249,9 @@ GetStep(r, res) ==
       o2 == O!ODecide(o1, r, E3.status, wait, now, E3.resp)
       o3 == IF ~wait /\ E3.status = "hit" /\ AgeAtDecision THEN O!OAge(o2, r, now - E3.createdAt, now) ELSE o2
   IN
-  /\ pc[r] = "get.lock" /\ elock[e] = Free
+  /\ \/ pc[r] = "store.get"
+     \/ pc[r] = "get.lock" /\ (LoadUnderLock \/ ~loads)
+  /\ elock[e] = Free
   /\ IF loads
      THEN (IF rec = NoRec THEN res \in {"notfound"} \cup (LoadResults \cap {"error"}) ELSE res \in LoadResults)
      ELSE res = "none"
@@ -383,7 +394,7 @@ SaveBegin(r) ==
   /\ HasStore[d] /\ ~(PurgeFences /\ E.removed)
   /\ pc' = [pc EXCEPT ![r] = IF pc[r] = "cab.save" THEN "cab.saving" ELSE "hfp.saving"]
   /\ elock' = IF SaveUnderLock THEN elock ELSE [elock EXCEPT ![e] = Free]
-  /\ obs' = G(O!OSetTried(obs, E.key))
+  /\ obs' = G(O!OSetTried(obs, d, E.key, e))
   /\ UNCHANGED <<now, ticks, lru, ent, est, nextEnt, slock, store, rkey, rdisp, rmeth, rent, rst, rresp, rout, rttl, rsend, rver,
                  ppc, pkey, ptodo, pcur, pall, starts, nver, purges, kills, drops>>
 
@@ -401,7 +412,7 @@ Save(r, ok) ==
      ELSE /\ ok = TRUE /\ UNCHANGED store
   /\ elock' = IF SaveUnderLock \/ pc[r] \in {"cab.save", "hfp.save"} THEN [elock EXCEPT ![e] = Free] ELSE elock
   /\ pc' = [pc EXCEPT ![r] = "end"]
-  /\ obs' = G(IF pc[r] \in {"cab.saving", "hfp.saving"} /\ ok /\ (SaveUnderLock \/ E.status \in {"hit", "hitForPass"}) THEN O!OPersisted(obs, E.key, IF E.status = "hit" THEN E.resp ELSE 0, TRUE) ELSE obs)
+  /\ obs' = G(IF pc[r] \in {"cab.saving", "hfp.saving"} /\ ok /\ (SaveUnderLock \/ E.status \in {"hit", "hitForPass"}) THEN O!OPersisted(obs, d, E.key, e, IF E.status = "hit" THEN E.resp ELSE 0, TRUE) ELSE obs)
   /\ UNCHANGED <<now, ticks, lru, ent, est, nextEnt, slock, rkey, rdisp, rmeth, rent, rst, rresp, rout, rttl, rsend, rver,
                  ppc, pkey, ptodo, pcur, pall, starts, nver, purges, kills, drops>>
 
@@ -515,6 +526,7 @@ LoadChoices == LoadResults \cup {"none", "notfound"}
 ReqStep(r) ==
   \/ \E k \in Keys, d \in Disp, m \in Methods : Start(r, k, d, m)
   \/ Lookup(r)
+  \/ GetBegin(r)
   \/ \E res \in LoadChoices : GetStep(r, res)
   \/ ArriveRecv(r) \/ Woken(r) \/ ReadStatus(r) \/ ReadResp(r) \/ AgeStep(r)
   \/ UpStart(r)
@@ -583,6 +595,8 @@ I_BadRecordIsMiss   == O!P_BadRecordIsMiss(obs)
 I_NoOwnError        == O!P_NoOwnError(obs)
 I_PublishedIsPersisted == O!P_PublishedIsPersisted(obs)
 I_NoWildRemoval     == O!P_NoWildRemoval(obs)
+I_NoWriteAfterPurge == O!P_NoWriteAfterPurge(obs)
+I_Capacity          == O!P_Capacity(obs)
 
 (* C02 liveness *)
 L_EveryRequestCompletes == \A r \in Req : (pc[r] # "idle") ~> (pc[r] = "idle")
@@ -595,7 +609,7 @@ L_PurgeCompletes == \A p \in Purgers : (ppc[p] # "idle") ~> (ppc[p] = "idle")
 TypeOK ==
   /\ now \in Nat /\ nextEnt \in 1..(MaxEnt + 1)
   /\ \A r \in Req : pc[r] \in {"idle", "lookup.lock", "get.lock", "get.recv", "recv", "get.woken", "get.read2",
-                               "age.lock", "next", "upstream", "cab.lock", "cab.send", "cab.sending", "cab.save", "cab.saving",
+                               "store.get", "age.lock", "next", "upstream", "cab.lock", "cab.send", "cab.sending", "cab.save", "cab.saving",
                                "hfp.lock", "hfp.send", "hfp.sending", "hfp.save", "hfp.saving", "end"}
   /\ \A e \in 1..MaxEnt : est[e].status \in {"unknown", "fetching", "hit", "hitForPass"}
 
